@@ -61,9 +61,10 @@ type opInst struct {
 }
 
 type opRes struct {
-	vals []cty.Value
-	s    string
-	viol string // set by an operation that itself saw a value change under its hands (checked in the sequential reference execution)
+	vals      []cty.Value
+	s         string
+	viol      string // set by an operation that itself saw a value change under its hands (checked in the sequential reference execution)
+	violClass string // its class when it is not the mutation of Go data handed in or out ("mutated-by-call")
 }
 
 // frozen records what v reports now; the returned function is called after the operation has mutated Go data
@@ -1663,7 +1664,11 @@ func simC20World(c *Ctx) {
 			observe(c, v, "C20:"+d.name)
 		}
 		if r.viol != "" {
-			c.Fail("C20", "mutated-through-alias", "mutated-through-alias:own:"+d.name, "task %d op %d %s: %s", ti, k, in, r.viol)
+			cls := "mutated-through-alias"
+			if r.violClass != "" {
+				cls = r.violClass
+			}
+			c.Fail("C20", cls, cls+":own:"+d.name, "task %d op %d %s: %s", ti, k, in, r.viol)
 		}
 		// nothing that existed before may have changed
 		now := w.fingerprints()
